@@ -9,3 +9,7 @@ for id in "$@"; do python3 run/check.py $id --tier quick 2>&1 | grep -E "VIOLATI
 git -C /repo checkout -- .
 mkdir -p work/mutant && cp evidence/*.json work/mutant/ 2>/dev/null
 rm -rf evidence && mv work/evidence.keep evidence
+# bring the generated Lean files back in line with the reverted tree
+( cd harness && cargo build --offline --release --target-dir target/default >/dev/null 2>&1 )
+harness/target/default/release/harness extract /repo lean/Generated/Consts.lean work/fingerprints.json
+python3 run/gen_manifests.py /repo lean/Generated/Manifests.lean
